@@ -292,7 +292,9 @@ def pipeline_case(col, rng):
         if got.ok != want.ok or (got.ok and (got.value != want.value or type(got.value) is not list)):
             col.violation('C17/all-differs', '%s.all() over %s: %r vs reference %r' % (rendering, items_desc, got, want), None)
     if kind == 'int':
-        key_name, key = rng.choice([('default', None), ('gt3', lambda x: x > 3), ('odd', lambda x: x % 2)])
+        # (is-zero / even / lt1: the first MATCHING item may itself be falsy - the key decides, not the item's truth value)
+        key_name, key = rng.choice([('default', None), ('gt3', lambda x: x > 3), ('odd', lambda x: x % 2), ('is-zero', lambda x: x == 0),
+                                    ('even', lambda x: x % 2 == 0), ('lt1', lambda x: x < 1)])
         src, rsrc = mk_src(), mk_src()
         dflt = rng.choice([None, 'DFLT'])
         args = {} if key is None else {'key': key}
